@@ -125,7 +125,7 @@ pub fn run_grid(sim: &Sim, idx: u64) {
     let mut hscript = plan.script.clone();
     if cfg.server_send.iter().any(|e| cfg.client_accept.contains(e)) && sim.chance(1, 4) {
         let forged = sim.pick(&["identity", "gzip", "deflate", "zstd"]);
-        hscript.initial_md.push(crate::gen::MdEntry { key: "grpc-encoding".into(), bin: false, val: forged.as_bytes().to_vec(), reserved: false, key_case: 0 });
+        hscript.initial_md.push(crate::gen::MdEntry { key: "grpc-encoding".into(), bin: false, val: forged.as_bytes().to_vec(), reserved: false, key_case: 0, replace: false, superseded: false });
         sim.fault("handler-metadata-carries-grpc-encoding");
         sim.ev(|| format!("config: handler's response metadata carries grpc-encoding: {forged}"));
     }
@@ -385,9 +385,13 @@ pub fn run_hostile_request(sim: &Sim, _idx: u64) {
 /// Foreign / hostile server peer against a tonic client.
 pub fn run_hostile_response(sim: &Sim, _idx: u64) {
     let client_accept = mask_to_vec(sim, sim.draw(8));
-    let cfg = CompCfg { server_accept: vec![], server_send: vec![], client_send: None, client_accept: client_accept.clone() };
+    // what the client *sends* with says nothing about what it accepts
+    let client_send: Option<Enc> = if sim.chance(1, 2) { Some(sim.pick(&ALL_ENC)) } else { None };
+    let cfg = CompCfg { server_accept: vec![], server_send: vec![], client_send, client_accept: client_accept.clone() };
     let peer = PeerSvc::new(sim);
     let enc_hdr: Option<Vec<u8>> = match sim.weighted(&[3, 5, 1, 1, 1]) {
+        // the peer answers in the encoding the client sent with (offered or not)
+        1 if client_send.is_some() && sim.chance(1, 2) => Some(client_send.unwrap().name().as_bytes().to_vec()),
         0 => None,
         1 => Some(sim.pick(&ALL_ENC).name().as_bytes().to_vec()),
         2 => Some(b"identity".to_vec()),
@@ -409,7 +413,7 @@ pub fn run_hostile_response(sim: &Sim, _idx: u64) {
     script.pending_pct = sim.pick(&[0u64, 30]);
     peer.push(script);
     sim.nontrivial();
-    sim.sample(|| format!("hostile response: client accepts {:?}; grpc-encoding={:?} flag={}", client_accept, enc_hdr.as_ref().map(|a| String::from_utf8_lossy(a).into_owned()), flag1 as u8));
+    sim.sample(|| format!("hostile response: client sends {client_send:?} accepts {:?}; grpc-encoding={:?} flag={}", client_accept, enc_hdr.as_ref().map(|a| String::from_utf8_lossy(a).into_owned()), flag1 as u8));
     sim.ev(|| format!("config: client accepts {:?}", client_accept));
     let mut client = c02::configure!(crate::rawsvc::raw_client::RawClient::new(peer.clone()), cfg, client);
     let fut = client.unary(tonic::Request::new(RawMsg(Bytes::from_static(b"ping"))));
